@@ -16,8 +16,11 @@ func init() {
 // c20Arith checks the real QuorumSize/NumFaulty for every n in 1..1e6 against the
 // statement's inequalities (not against a second formula).
 func c20Arith(p vbase.Params, r *vbase.Result) {
-	const maxN = 1_000_000
-	r.Rule = "exhaustive n=1..1e6 on hotstuff.QuorumSize/NumFaulty: 3f<n<=3(f+1), 2q-n>=f+1, q<=n-f, q-1 fails intersection; " +
+	maxN := 1_000_000
+	if p.Thorough() {
+		maxN = 20_000_000
+	}
+	r.Rule = fmt.Sprintf("exhaustive n=1..%d on", maxN) + " hotstuff.QuorumSize/NumFaulty: 3f<n<=3(f+1), 2q-n>=f+1, q<=n-f, q-1 fails intersection; " +
 		"RuntimeConfig.QuorumSize() for n<=2000 configured replicas; non-trivial: n<4 or n mod 3 != 1 (outside the repo's table test); distinct: n"
 	r.Exhaustive = true
 	for n := 1; n <= maxN; n++ {
@@ -27,7 +30,7 @@ func c20Arith(p vbase.Params, r *vbase.Result) {
 		f := hotstuff.NumFaulty(n)
 		q := hotstuff.QuorumSize(n)
 		nontrivial := n < 4 || n%3 != 1
-		r.Eval(nontrivial, fmt.Sprint(n))
+		r.EvalUnique(nontrivial) // every n is visited exactly once
 		bad := ""
 		switch {
 		case f < 0 || 3*f >= n:
